@@ -165,19 +165,20 @@ type MockInfo struct {
 	IfaceName  string
 	TypeParams []ParamInfo
 	Methods    []MethodInfo
+	Arg        *interp.Sym // the command-line argument, when it is not IfaceName or IfaceName:MockName
 }
 
 // Model is the concrete token assignment of an Env.
 type Model struct {
-	Env        Env
-	Mocks      []MockInfo
-	DepTypes   []string // names declared in package dep
-	Dep2Types  []string // names declared in package dep2
-	Dep2Alias  string
-	UsesDep    bool
-	UsesDep2   bool
-	SyncQual   string
-	SrcQual    string
+	Env       Env
+	Mocks     []MockInfo
+	DepTypes  []string // names declared in package dep
+	Dep2Types []string // names declared in package dep2
+	Dep2Alias string
+	UsesDep   bool
+	UsesDep2  bool
+	SyncQual  string
+	SrcQual   string
 }
 
 func tok(op string, idx ...int) string {
@@ -385,13 +386,13 @@ func BuildData(prog *load.Program, m *Model) (*interp.Struct, error) {
 		} else {
 			nm = interp.Lit(name)
 		}
-		s, err := mkStruct(dt.Package, "pkg:"+path, map[string]interp.Value{
-			"pkg":   &interp.Opaque{Kind: "types.Package", ID: path, Attrs: map[string]interp.Value{"path": interp.Lit(path), "name": nm}},
-			"Alias": a,
-		})
-		if err != nil {
-			return nil, err
+		mm := interp.New(prog)
+		InstallTypesModels(mm, prog)
+		s := NewPackageValue(prog, mm, &interp.Opaque{Kind: "types.Package", ID: path, Attrs: map[string]interp.Value{"path": interp.Lit(path), "name": nm}}, a)
+		if s == nil {
+			return nil, fmt.Errorf("data model anchor lost: registry.NewPackage cannot be interpreted")
 		}
+		s.ID = "pkg:" + path
 		return &interp.Ptr{Elem: s}, nil
 	}
 	// imports, sorted by path as Registry.Imports does (dep < dep2 < src < sync)
@@ -565,6 +566,26 @@ func RemoveVarModels(m *interp.Machine) {
 		delete(m.Ext, form+"TypeString")
 		delete(m.Ext, form+"IsSlice")
 	}
+}
+
+// NewPackageValue builds a registry.Package for the abstract go/types package by interpreting the exported
+// constructor registry.NewPackage and setting the exported Alias field.
+func NewPackageValue(prog *load.Program, m *interp.Machine, pkg *interp.Opaque, alias *interp.Sym) *interp.Struct {
+	fn := prog.LookupFunc(load.PkgRegistry, "NewPackage")
+	if fn == nil {
+		return nil
+	}
+	v, err := m.CallFunc(token.NoPos, fn, nil, []interp.Value{pkg})
+	if err != nil {
+		return nil
+	}
+	p, ok := v.(*interp.Ptr)
+	if !ok {
+		return nil
+	}
+	p.Elem.Fields["Alias"] = alias
+	p.Elem.Aux = map[string]interp.Value{"pkg": pkg}
+	return p.Elem
 }
 
 // InstallVarModels models the exported rendering methods of registry.Var on the abstract variables of
